@@ -328,7 +328,9 @@ def _stream_belongs(pid, m):
     slice_matter = op in SLICE_OPS or m["kind"] in ("other-stream-changed", "live-count")
     in_bounds = cls == "small" and m["kind"] in ("state", "count", "bytes", "refused-should-accept")
     if pid == "C13":
-        return slice_matter or in_bounds or backend == "file"
+        # a slice that lets an operation leave its extent (an out-of-bounds seek or read accepted, a failed call that moved it) is no longer
+        # confined to its n bytes: every disagreement observed ON a slice backend speaks about C13 as well
+        return slice_matter or in_bounds or backend in ("file", "memslice", "fileslice")
     return not slice_matter
 
 
